@@ -10,7 +10,7 @@
     defect of the code before the repair. *)
 From Coq Require Import ZArith List Bool.
 From NS Require Import Base.NoteSeq Gen.G14 Model.Sustain Proofs.Sustain Proofs.SustainIdent Proofs.SustainFrame
-  Proofs.SustainMono.
+  Proofs.SustainMono Proofs.SustainSpecA Proofs.SustainSpecB Proofs.SustainSpec.
 Import ListNotations.
 Local Open Scope Z_scope.
 
@@ -104,21 +104,33 @@ Theorem C14_other_instrument_events : forall i evs s,
 Proof. exact run_other_instruments. Qed.
 Print Assumptions C14_other_instrument_events.
 
-(** NOT PROVED (kept as the target; see notes/C14.md).  The full functional
-    characterisation, for inputs inside the quantifier:
+(** THE FUNCTIONAL CHARACTERISATION.  Inside the quantifier the returned notes
+    are exactly the declarative specification [spec_notes] (Model/Sustain.v):
+    note k keeps every field and gets the end [spec_end k]:
+      - a drum note, or a note that ends while the pedal of its own instrument
+        is up (pedal state after every pedal event of that instrument with
+        time <= end, presses applied before releases at equal times): its end;
+      - otherwise the minimum of the first release of that pedal strictly after
+        the end and the first start >= end of ANOTHER note of the same pitch
+        on the same instrument;
+      - the time of the last note/pedal event if neither exists.
+    Proved by a simulation invariant over the stably sorted event list (every
+    note is pending / sounding / held / finished-with-its-specified-end; the
+    pedal flags are the declarative pedal states of the processed prefix). *)
+Theorem C14_sustain_refines_spec : forall ctl s s',
+  ordered_b (s_notes s) = true -> no_clash (s_notes s) = true ->
+  apply_sustain ctl s = Some s' ->
+  s_notes s' = spec_notes ctl (s_notes s) (s_ccs s).
+Proof. exact sustain_refines_spec. Qed.
+Print Assumptions C14_sustain_refines_spec.
 
-      Theorem sustain_refines_spec : forall ctl s s',
-        ordered_b (s_notes s) = true -> no_clash (s_notes s) = true ->
-        apply_sustain ctl s = Some s' ->
-        s_notes s' = spec_notes ctl (s_notes s) (s_ccs s).
-
-    What is proved of it: the list structure, every field but the end, and
-    end' >= end ([C14_ends_monotone]); end' = end for every instrument without
-    pedal-down ([C14_instrument_without_pedal_unchanged]) and for drums.  The
-    equation end' = spec_end itself is checked on every generated case on the
-    implementation (the oracle evaluates [spec_end]'s definition) and on the
-    model (op 3 of Run/C14.v runs [spec_notes]); the example below is one
-    instance computed in the kernel. *)
+(** The same, note by note. *)
+Theorem C14_end_is_spec_end : forall ctl s s' k n,
+  ordered_b (s_notes s) = true -> no_clash (s_notes s) = true ->
+  apply_sustain ctl s = Some s' -> nth_error (s_notes s) k = Some n ->
+  nth_error (s_notes s') k = Some (set_end n (spec_end ctl (s_notes s) (s_ccs s) k n)).
+Proof. exact sustain_end_is_spec_end. Qed.
+Print Assumptions C14_end_is_spec_end.
 
 (** Non-vacuity: the hypotheses are satisfiable by an input on which the pedal
     does something, and the result is the specified one: instrument 0 holds
